@@ -3,7 +3,7 @@ from .. import histgen, tracker, model
 from ..runner import Prop, Stage, Result
 
 CHECKS = [tracker.check_lifetimes]
-PROFILE = dict(reuse=0.7, server_reuse=0.6, weights=dict(newer=4, midsession=5, delete=24, bind=12, message=36, server_event=18, deep=4, sync=6))
+PROFILE = dict(reuse=0.7, server_reuse=0.6, weights=dict(repeat=4, newer=4, midsession=5, server_retype=6, delete=24, bind=12, message=36, server_event=18, deep=4, sync=6))
 
 
 def nontrivial(specs):
@@ -36,6 +36,7 @@ class _Base(Stage):
 
     def execute(self, case):
         tr, res = tracker.run_history(case['specs'], CHECKS, case.get('dialect', 'new'))
+        tracker.check_after_close(tr, res)
         self.finish(case, res)
         return res
 
@@ -52,7 +53,7 @@ class Machine(_Base):
 
     def machine(self, col, tier):
         return tracker.make_machine(col, self, tier, CHECKS, profile=PROFILE,
-                                    kinds=('message', 'delete', 'bind', 'server_event', 'sync', 'deep', 'newer', 'retype', 'midsession'))
+                                    kinds=('message', 'delete', 'bind', 'server_event', 'sync', 'deep', 'newer', 'retype', 'midsession', 'server_retype', 'repeat'))
 
 
 class Histories(_Base):
